@@ -677,6 +677,16 @@ int __wrap_pthread_mutex_unlock(pthread_mutex_t *m) {
     return 0;
   }
   Task &t = g_tasks[g_cur];
+  if (mm.owner != g_cur) {
+    // unlocking a mutex this task does not hold: either nobody holds it, or another task's critical section is
+    // being opened from outside
+    std::string key = "mutex-unlocked-by-non-owner:" + symbolize(PC);
+    if (!g_race_keys.count(key)) {
+      g_race_keys.insert(key);
+      g_races.push_back(Race{key, sim::strf("task %d unlocks a mutex in %s() that %s", g_cur, symbolize(PC).c_str(),
+                                            mm.owner < 0 ? "nobody holds (released twice)" : sim::strf("task %d holds", mm.owner).c_str())});
+    }
+  }
   mm.owner = -1;
   if (mm.vc_set) vc_join(mm.vc, t.vc); else { mm.vc = t.vc; mm.vc_set = true; }
   t.vc.c[g_cur]++;
